@@ -153,8 +153,9 @@ class InstanceReport:
                     env = None
                     if real:
                         cnt = self.__dict__.setdefault("_real_calls", {})
-                        cnt[key or label] = cnt.get(key or label, 0) + 1
-                        if cnt[key or label] <= 3:
+                        ck = (key or label, label)
+                        cnt[ck] = cnt.get(ck, 0) + 1
+                        if cnt[ck] <= 3:
                             env = real_witness(ctx, [negated], model=m, samplers=samplers, tries=1500)
                     spec = witness(env if env is not None else m)
                     if real and spec is not None:
